@@ -18,6 +18,8 @@ Inductive label :=
 (* submitter j: executor.submit(future); future.result() *)
 | LSubCheck (j : nat)          (* reads the shutdown flag (rejected if set) *)
 | LSubAcquire (j : nat)        (* takes the executor lock *)
+| LSubRecheck (j : nat)        (* reads the shutdown flag again, now holding the lock *)
+| LSubUnlock (j : nat)         (* flag found set under the lock: releases the lock; submit() raises (REJECTED) *)
 | LSubAppend (j : nat)         (* registers the job *)
 | LSubStart (j : nat)          (* starts the job's worker thread: the job is ACCEPTED *)
 | LSubRelease (j : nat)        (* releases the lock; submit() returns *)
@@ -32,11 +34,12 @@ Inductive label :=
 | LSetResult (j : nat)         (* the result / exception is DELIVERED *)
 (* shutdown caller k *)
 | LSdSet (k : nat)             (* the shutdown REQUEST: sets the flag *)
-| LSdAcquire (k : nat)         (* wait=False: takes the lock, snapshots the registry *)
+| LSdAcquire (k : nat)         (* takes the lock (wait=False: and snapshots the registry for its cancel tasks) *)
 | LSdCancel (k j : nat)        (* wait=False: cancel task for job j *)
-| LSdSnap (k : nat)            (* wait=True: snapshots the registry *)
+| LSdSnap (k : nat)            (* wait=True: snapshots the registry (holding the lock) *)
+| LSdRelease (k : nat)         (* wait=True: releases the lock after the snapshot *)
 | LSdJoin (k : nat)            (* wait=True: result() of the next job of the snapshot returns *)
-| LSdRaise (k : nat)           (* wait=True: result() of the next job raises; shutdown() terminates with that exception *)
+| LSdRaise (k : nat)           (* shutdown() terminates with an exception (e.g. of a job): must never happen *)
 | LSdReturn (k : nat).         (* shutdown() RETURNS *)
 
 Definition label_eq_dec : forall a b : label, {a = b} + {a <> b}.
@@ -64,6 +67,23 @@ Definition accepted_after_return (tr : list label) : Prop :=
 
 Definition spawned_after_return (tr : list label) : Prop :=
   exists pre post j k, tr = pre ++ LPopen j true :: post /\ In (LSdReturn k) pre.
+
+(* the same for one particular shutdown() call k *)
+Definition accepted_after_return_of (k : nat) (tr : list label) : Prop :=
+  exists pre post j, tr = pre ++ LSubStart j :: post /\ In (LSdReturn k) pre.
+
+(* job j was registered before the shutdown(wait=True) call k looked at the registry *)
+Definition registered_before_snapshot (k j : nat) (tr : list label) : Prop :=
+  exists pre post, tr = pre ++ LSdSnap k :: post /\ In (LSubAppend j) pre.
+
+(* the solver process of job j existed when a cancel task for it ran (of any caller) *)
+Definition cancelled_while_spawned (j : nat) (tr : list label) : Prop :=
+  exists pre post k, tr = pre ++ LSdCancel k j :: post /\ In (LPopen j true) pre.
+
+(* the solver process of job j existed when the shutdown(wait=False) call k took the
+   lock (all its cancel tasks come later) *)
+Definition spawned_before_acquire (k j : nat) (tr : list label) : Prop :=
+  exists pre post, tr = pre ++ LSdAcquire k :: post /\ In (LPopen j true) pre.
 
 (* ---- a job that exceeded its time limit is reported as unknown ------------- *)
 Definition spec_timeout_verdict : verdict := VUnknown.
